@@ -68,7 +68,7 @@ def delivery_oracle(n, built, unexpected, n_errors, accepted, case, acc, capped=
         acc.violation('delivery-eof', case, 'more than one EOF token delivered')
 
 
-def check_kinds(kinds, acc, trace=False):
+def check_kinds(kinds, acc, trace=False, strict_reads=False):
     tr = [] if trace else None
     r = K.run(kinds, trace=tr)
     acc.n += 1
@@ -93,7 +93,7 @@ def check_kinds(kinds, acc, trace=False):
         acc.violation('scanner-reads', case, 'scanner was read %d times for %d lines' % (r['reads'], n))
     capped = len(r['errors']) >= 11
     last = max((e[0] for e in r['errors'] if isinstance(e[0], int)), default=None)
-    if capped and last is not None and r['reads'] > last + 3:
+    if strict_reads and capped and last is not None and r['reads'] > last + 3:
         acc.violation('reads-after-limit', case, 'the eleventh error is at line %d, but the scanner was read %d times' % (last, r['reads']))
     delivery_oracle(n, built, unexpected, len(r['errors']), r['ok'], case, acc, capped=capped, last_error_line=last)
 
@@ -307,7 +307,7 @@ def job_limit(state):
         for m in range(9, 15):
             for tail in ((), ('FeatureLine', 'ScenarioLine', 'StepLine'), (k,), ('Comment', 'Empty', 'TagLine', 'ScenarioLine')):
                 word = wit + (k,) * m + tail
-                check_kinds(word, acc)
+                check_kinds(word, acc, strict_reads=True)
                 acc.counters['error_limit_words'] += 1
     if word:
         acc.sample({'kinds': list(word)})
